@@ -122,6 +122,8 @@ def cells(tier):
                     continue  # measured: round robin x pool order over >= 4 shards exceeds the 900 s cell budget
                 if shuffled and layout == "five-shards" and iface == "numpy":
                     continue  # example-level shuffle buffer over 9 examples: > 900 s
+                if shuffled and layout == "nested" and iface in ("concurrent", "tfdataset", "async"):
+                    continue  # 4 shards: as above
                 splits = ["train"] + (["test"] if layout in ("short-last", "nested", "three-splits", "multi") and not shuffled else [])
                 if layout == "three-splits" and not shuffled:
                     splits.append("holdout")
